@@ -66,6 +66,8 @@ impl InboundRequestHandler {
                             let request_handler =
                                 BiStreamRequestHandler::new(&self.config, self.connection.clone(), self.service.clone(), bi_tx, bi_rx);
                             inflight_requests.spawn(request_handler.handle());
+                            #[cfg(bmwill_anemo_verif)]
+                            crate::verif::trace(format!("handler id={} req-start", self.connection.stable_id()));
                         }
                         Err(e) => {
                             trace!("error listening for incoming bi streams: {e}");
@@ -85,6 +87,8 @@ impl InboundRequestHandler {
                     }
                 },
                 Some(completed_request) = inflight_requests.join_next() => {
+                    #[cfg(bmwill_anemo_verif)]
+                    crate::verif::trace(format!("handler id={} req-end", self.connection.stable_id()));
                     match completed_request {
                         Ok(()) => {
                             trace!("request handler task completed");
@@ -111,6 +115,8 @@ impl InboundRequestHandler {
         );
 
         inflight_requests.shutdown().await;
+        #[cfg(bmwill_anemo_verif)]
+        crate::verif::trace(format!("handler id={} drained", self.connection.stable_id()));
 
         debug!(peer =% self.connection.peer_id(), "InboundRequestHandler ended");
     }
